@@ -60,51 +60,32 @@ def _interesting(ln):
             or o["gc"]["w"] or any(x["w"] for x in o["closes"]))
 
 
+FIXTURES = [
+    {"env": L.good_env(), "ret": "gen", "cut": 1, "srv": L.srv(99, 1),
+     "script": [L.SR("200 OK", [("ETag", "abc")]), L.act("Y", d=L.B(b"hello"))]},
+    {"env": L.good_env(), "ret": "gen", "cut": 2, "srv": L.srv(99, 0),
+     "script": [L.act("IN", m="read", args=(2,)), L.SR("200 OK", []), L.act("Y", d=L.B(b"hello"))]},
+]
+
+
 def _corrupt(lines):
-    """judge self-test: copies of good recorded requests with ONE recorded field falsified; each must be rejected"""
+    """judge self-test: copies of the two recorded fixture requests with ONE recorded field falsified; each must be rejected"""
+    a, b = lines[0], lines[1]
     out = {}
-    for ln in lines:
-        o, c = ln["obs"], ln["case"]
-        acts = o["acts"]
-        if "sr_dropped" not in out:
-            for i, a in enumerate(acts):
-                if c["script"][i]["k"] == "SR" and len(a["fwd"]) == 1 and a["exc"] == "":
-                    bad = copy.deepcopy(ln)
-                    bad["obs"]["acts"][i]["fwd"] = []
-                    out["sr_dropped"] = (bad, "Transparency:SR:dropped")
-                    break
-        if "item_changed" not in out:
-            for k, n in enumerate(o["nexts"]):
-                if n["r"] == "item" and n["item"]["v"]:
-                    bad = copy.deepcopy(ln)
-                    bad["obs"]["nexts"][k]["item"]["v"] = n["item"]["v"][:-1]
-                    out["item_changed"] = (bad, "Transparency:NEXT:item")
-                    break
-        if "gc_warning_lost" not in out and o["gc"]["ran"] and not o["closes"] and o["gc"]["w"]:
-            bad = copy.deepcopy(ln)
-            bad["obs"]["gc"]["w"] = []
-            out["gc_warning_lost"] = (bad, "Missing:GC:Unclosed")
-        if "close_swallowed" not in out and c["ret"] == "gen" and o["closes"] and o["closes"][0]["appcloses"] == 1:
-            bad = copy.deepcopy(ln)
-            bad["obs"]["closes"][0]["appcloses"] = 0
-            out["close_swallowed"] = (bad, "Transparency:CLOSE:swallowed")
-        if "warning_on_read_n" not in out:
-            for i, a in enumerate(acts):
-                s = c["script"][i]
-                if s["k"] == "IN" and s["m"] == "read" and len(s["args"]) == 1 and not a["w"]:
-                    bad = copy.deepcopy(ln)
-                    bad["obs"]["acts"][i]["w"] = [{"c": "WSGIWarning", "g": "ReadNoSize"}]
-                    out["warning_on_read_n"] = (bad, "FalseAlarm:IN:read")
-                    break
-        if "etag_warning_class" not in out:
-            for i, a in enumerate(acts):
-                if [w["g"] for w in a["w"]] == ["ETagUnquoted"] and len(a["fwd"]) == 1:
-                    bad = copy.deepcopy(ln)
-                    bad["obs"]["acts"][i]["w"][0]["c"] = "WSGIWarning"
-                    out["etag_warning_class"] = (bad, "Missing:SR:ETagUnquoted")
-                    break
-        if len(out) == 6:
-            break
+
+    def bad(ln, name, clause, fn):
+        x = copy.deepcopy(ln)
+        fn(x["obs"])
+        out[name] = (x, clause)
+
+    bad(a, "sr_dropped", "Transparency:SR:dropped", lambda o: o["acts"][0].update(fwd=[]))
+    bad(a, "item_changed", "Transparency:NEXT:item", lambda o: o["nexts"][0]["item"].update(v=o["nexts"][0]["item"]["v"][:-1]))
+    bad(a, "close_swallowed", "Transparency:CLOSE:swallowed", lambda o: o["closes"][0].update(appcloses=0))
+    bad(a, "etag_warning_class", "Missing:SR:ETagUnquoted", lambda o: o["acts"][0]["w"][0].update(c="WSGIWarning"))
+    bad(a, "etag_warning_lost", "Missing:SR:ETagUnquoted", lambda o: o["acts"][0].update(w=[]))
+    bad(b, "gc_warning_lost", "Missing:GC:Unclosed", lambda o: o["gc"].update(w=[]))
+    bad(b, "warning_on_read_n", "FalseAlarm:IN:read", lambda o: o["acts"][0].update(w=[{"c": "WSGIWarning", "g": "ReadNoSize"}]))
+    bad(b, "exception_swallowed", "Transparency:NEXT:outcome", lambda o: o["nexts"][1].update(r="item"))
     return out
 
 
@@ -249,7 +230,7 @@ def run(ctx: Ctx):
     bg = _Tlc(ctx, runs)
 
     # 3. code -> spec, while TLC is exporting
-    cases = [L.rand_case(rng, 8 if q else 12) for _ in range(6000 if q else 150000)]
+    cases = copy.deepcopy(FIXTURES) + [L.rand_case(rng, 8 if q else 12) for _ in range(6000 if q else 150000)]
     lines = judge_cases(ctx, cases, "random", selftest=True)
     samples = lines[:: max(1, len(lines) // 3)][:3]
 
